@@ -775,8 +775,8 @@ func (c *Compiler) compileAssign(
 			c.emit(node, parser.OpSetFree, symbol.Index)
 		}
 	default:
-		panic(fmt.Errorf("invalid assignment variable scope: %s",
-			symbol.Scope))
+		return c.errorf(node, "cannot assign to '%s' (%s)", ident,
+			strings.ToLower(string(symbol.Scope)))
 	}
 	return nil
 }
